@@ -1,1 +1,360 @@
-fn main(){}
+//! xv: generated-input verification harness for tarka/xcp.
+//!
+//!   xv setup                               build everything once
+//!   xv check <ID> [--tier quick|thorough]  run a property check (exit 0 / 1 / 2)
+//!   xv replay <file>                       re-judge a saved case
+//!   xv trace [--sched K] -- <xcp args>     debugging: run xcp under the supervisor in cwd
+
+#![allow(dead_code, unused_parens)]
+
+mod checks;
+mod engine;
+mod model;
+mod run;
+mod sandbox;
+mod spec;
+mod sup;
+mod util;
+
+use engine::*;
+use serde_json::{json, Value};
+use std::path::{Path, PathBuf};
+use std::process::{Command, Stdio};
+use std::time::Instant;
+
+fn load_known() -> Vec<KnownFinding> {
+    let p = Path::new("/verif/known_findings.json");
+    match std::fs::read_to_string(p) {
+        Ok(s) => {
+            let v: Value = serde_json::from_str(&s).unwrap_or(Value::Null);
+            v.get("findings")
+                .and_then(|f| serde_json::from_value::<Vec<KnownFinding>>(f.clone()).ok())
+                .unwrap_or_default()
+        }
+        Err(_) => vec![],
+    }
+}
+
+fn env_seed() -> u64 {
+    std::env::var("VERIF_SEED").ok().and_then(|s| s.trim().parse::<i64>().ok()).map(|v| v as u64).unwrap_or(0)
+}
+
+fn arg_val(args: &[String], name: &str) -> Option<String> {
+    args.iter().position(|a| a == name).and_then(|i| args.get(i + 1).cloned())
+}
+
+fn build_for(needs: &checks::Needs) -> Result<(), String> {
+    if needs.xcp {
+        run::build_xcp()?;
+    }
+    if needs.probe {
+        run::build_probe()?;
+    }
+    if needs.fallback {
+        run::build_fallback()?;
+    }
+    Ok(())
+}
+
+fn main() {
+    let args: Vec<String> = std::env::args().collect();
+    if args.len() < 2 {
+        eprintln!("usage: xv setup | check <ID> [--tier quick|thorough] | replay <file> | trace -- args");
+        std::process::exit(2);
+    }
+    match args[1].as_str() {
+        "setup" => {
+            let n = checks::Needs { xcp: true, probe: true, fallback: true };
+            if let Err(e) = build_for(&n) {
+                eprintln!("{e}");
+                std::process::exit(2);
+            }
+            println!("setup ok");
+        }
+        "check" => {
+            let id = args.get(2).cloned().unwrap_or_default();
+            let tier = match arg_val(&args, "--tier").or_else(|| std::env::var("VERIF_TIER").ok()).as_deref() {
+                Some("thorough") => Tier::Thorough,
+                _ => Tier::Quick,
+            };
+            std::process::exit(cmd_check(&id, tier, &args));
+        }
+        "shard" => {
+            let id = args[2].clone();
+            let tier = if arg_val(&args, "--tier").as_deref() == Some("thorough") { Tier::Thorough } else { Tier::Quick };
+            let shard: usize = arg_val(&args, "--shard").unwrap().parse().unwrap();
+            let nshards: usize = arg_val(&args, "--nshards").unwrap().parse().unwrap();
+            let out = arg_val(&args, "--out").unwrap();
+            let ctx = Ctx { id: id.clone(), tier, seed: env_seed(), shard, nshards, known: load_known(), scale: env_scale() };
+            let chk = checks::get(&id).expect("unknown check");
+            let mut rec = Rec::default();
+            chk.run_shard(&ctx, &mut rec);
+            std::fs::write(&out, serde_json::to_vec(&rec).unwrap()).expect("write shard output");
+        }
+        "replay" => {
+            let f = args.get(2).cloned().unwrap_or_default();
+            std::process::exit(cmd_replay(&f));
+        }
+        "trace" => {
+            let pos = args.iter().position(|a| a == "--").unwrap_or(args.len() - 1);
+            let xargs: Vec<Vec<u8>> = args[pos + 1..].iter().map(|s| s.as_bytes().to_vec()).collect();
+            let kind = match arg_val(&args[..pos], "--sched").as_deref() {
+                Some("random") => sup::SchedKind::Random,
+                Some("walker") => sup::SchedKind::WalkerFirst,
+                Some("workers") => sup::SchedKind::WorkersFirst,
+                Some("starve") => sup::SchedKind::StarveWorker(0),
+                _ => sup::SchedKind::Free,
+            };
+            let seed = arg_val(&args[..pos], "--seed").and_then(|s| s.parse().ok()).unwrap_or(1);
+            if let Err(e) = run::build_xcp() {
+                eprintln!("{e}");
+                std::process::exit(2);
+            }
+            let cwd = std::env::current_dir().unwrap();
+            let out_dir = PathBuf::from(format!("/tmp/xv-trace-{}", std::process::id()));
+            std::fs::create_dir_all(&out_dir).unwrap();
+            let parblock = args.iter().any(|a| a.contains("parblock"));
+            let spec = sup::SupSpec {
+                bin: PathBuf::from(run::XCP_BIN),
+                args: xargs,
+                cwd: cwd.clone(),
+                umask: 0o022,
+                nofile: None,
+                timeout: std::time::Duration::from_secs(30),
+                out_dir: out_dir.clone(),
+                root: util::pbytes(&cwd),
+                rules: vec![],
+                sched: sup::Sched { kind, seed, change_points: vec![], parblock },
+                log_all: args.iter().any(|a| a == "--all"),
+                extra_env: vec![],
+            };
+            let o = sup::Sup::run(spec);
+            for e in &o.log {
+                println!("{}", e.short());
+            }
+            println!(
+                "exit={:?} sig={:?} timeout={} threads={} roles={:?} peak_fds={} valve={} wall={:?}\nstderr: {}",
+                o.code, o.signal, o.timed_out, o.threads, o.roles, o.peak_fds, o.valve_releases, o.wall, o.stderr_s()
+            );
+            let _ = std::fs::remove_dir_all(&out_dir);
+        }
+        other => {
+            eprintln!("unknown command {other}");
+            std::process::exit(2);
+        }
+    }
+}
+
+fn env_scale() -> f64 {
+    std::env::var("XV_SCALE").ok().and_then(|s| s.parse().ok()).unwrap_or(1.0)
+}
+
+fn write_replay(f: &Failure) -> String {
+    let dir = format!("/verif/replays/{}/new", f.property);
+    let _ = std::fs::create_dir_all(&dir);
+    let body = serde_json::to_string_pretty(f).unwrap();
+    let h = util::fnv64(body.as_bytes());
+    let path = format!("{}/{:016x}.json", dir, h);
+    let _ = std::fs::write(&path, body);
+    path
+}
+
+fn cmd_replay(file: &str) -> i32 {
+    let s = match std::fs::read_to_string(file) {
+        Ok(s) => s,
+        Err(e) => {
+            eprintln!("cannot read {file}: {e}");
+            return 2;
+        }
+    };
+    let f: Failure = match serde_json::from_str(&s) {
+        Ok(f) => f,
+        Err(e) => {
+            eprintln!("bad replay file: {e}");
+            return 2;
+        }
+    };
+    let chk = match checks::get(&f.property) {
+        Some(c) => c,
+        None => {
+            eprintln!("unknown property {}", f.property);
+            return 2;
+        }
+    };
+    if let Err(e) = build_for(&chk.needs()) {
+        eprintln!("{e}");
+        return 2;
+    }
+    let ctx = Ctx { id: f.property.clone(), tier: Tier::Quick, seed: env_seed(), shard: 0, nshards: 1, known: load_known(), scale: 1.0 };
+    match chk.replay(&ctx, &f.sub, &f.case) {
+        Verdict::Pass => {
+            println!("replay {}: property holds on this case", file);
+            0
+        }
+        Verdict::Inconclusive(w) => {
+            println!("replay {}: inconclusive: {}", file, w);
+            2
+        }
+        Verdict::Fail(sig, reason, details) => {
+            if let Some(k) = ctx.is_known(&sig) {
+                println!("KNOWN-FINDING: property={} {}", f.property, k.what);
+                println!("replay {}: fails with a listed known finding [{}]: {}", file, sig, reason);
+                return 0;
+            }
+            println!("signature: {}\nreason: {}\ndetails: {}", sig, reason, serde_json::to_string_pretty(&details).unwrap_or_default());
+            println!("VIOLATION property={} replay={}", f.property, file);
+            1
+        }
+    }
+}
+
+fn cmd_check(id: &str, tier: Tier, args: &[String]) -> i32 {
+    let t0 = Instant::now();
+    let chk = match checks::get(id) {
+        Some(c) => c,
+        None => {
+            eprintln!("unknown check {id}");
+            return 2;
+        }
+    };
+    if let Err(e) = build_for(&chk.needs()) {
+        eprintln!("BUILD-FAILURE (inconclusive, not a verdict): {e}");
+        return 2;
+    }
+    let seed = env_seed();
+    let known = load_known();
+    let nshards: usize = arg_val(args, "--shards").and_then(|s| s.parse().ok()).unwrap_or_else(|| chk.shards(tier));
+    let mut total = Rec::default();
+
+    // 1. regression tier: committed replay files
+    let ctx0 = Ctx { id: id.to_string(), tier, seed, shard: 0, nshards: 1, known: known.clone(), scale: env_scale() };
+    let rdir = format!("/verif/replays/{}", id);
+    let mut replay_files: Vec<PathBuf> = std::fs::read_dir(&rdir)
+        .map(|rd| rd.flatten().map(|e| e.path()).filter(|p| p.extension().map(|x| x == "json").unwrap_or(false)).collect())
+        .unwrap_or_default();
+    replay_files.sort();
+    let mut violation_lines: Vec<String> = vec![];
+    for rf in &replay_files {
+        if let Ok(s) = std::fs::read_to_string(rf) {
+            if let Ok(f) = serde_json::from_str::<Failure>(&s) {
+                total.count("replays_run", 1);
+                total.eval(1);
+                match chk.replay(&ctx0, &f.sub, &f.case) {
+                    Verdict::Fail(sig, reason, _) => {
+                        if let Some(k) = ctx0.is_known(&sig) {
+                            *total.known_hits.entry(format!("{}: {}", k.signature, k.what)).or_insert(0) += 1;
+                        } else {
+                            println!("replay {} fails: [{}] {}", rf.display(), sig, reason);
+                            violation_lines.push(format!("VIOLATION property={} replay={}", id, rf.display()));
+                        }
+                    }
+                    _ => {}
+                }
+            }
+        }
+    }
+
+    // 2. generated search, sharded by process
+    let exe = std::env::current_exe().expect("current_exe");
+    let tmpdir = PathBuf::from(format!("/verif/.build/shards/{}-{}", id, std::process::id()));
+    let _ = std::fs::create_dir_all(&tmpdir);
+    let mut children = vec![];
+    for s in 0..nshards {
+        let out = tmpdir.join(format!("shard{}.json", s));
+        let ch = Command::new(&exe)
+            .args(["shard", id, "--tier", tier.name(), "--shard", &s.to_string(), "--nshards", &nshards.to_string(), "--out"])
+            .arg(&out)
+            .env("VERIF_SEED", (seed as i64).to_string())
+            .stdin(Stdio::null())
+            .spawn()
+            .expect("spawn shard");
+        children.push((s, ch, out));
+    }
+    let mut infra_fail: Vec<String> = vec![];
+    for (s, mut ch, out) in children {
+        let st = ch.wait().expect("wait shard");
+        if !st.success() {
+            infra_fail.push(format!("shard {} ended with {:?}", s, st));
+            continue;
+        }
+        match std::fs::read(&out).ok().and_then(|b| serde_json::from_slice::<Rec>(&b).ok()) {
+            Some(r) => total.merge(r),
+            None => infra_fail.push(format!("shard {} produced no result", s)),
+        }
+    }
+    let _ = std::fs::remove_dir_all(&tmpdir);
+
+    // 3. verdict
+    for (k, n) in &total.known_hits {
+        // "signature: what"
+        println!("KNOWN-FINDING: property={} {} (hit {} times)", id, k, n);
+    }
+    // keep the smallest failure per signature
+    let mut by_sig: std::collections::BTreeMap<String, Failure> = Default::default();
+    for f in total.failures.drain(..) {
+        let sz = serde_json::to_string(&f.case).map(|s| s.len()).unwrap_or(0);
+        match by_sig.get(&f.signature) {
+            Some(g) if serde_json::to_string(&g.case).map(|s| s.len()).unwrap_or(0) <= sz => {}
+            _ => {
+                by_sig.insert(f.signature.clone(), f);
+            }
+        }
+    }
+    for (_sig, f) in &by_sig {
+        let path = write_replay(f);
+        println!("failure [{}] sub={} : {}", f.signature, f.sub, f.reason);
+        violation_lines.push(format!("VIOLATION property={} replay={}", id, path));
+    }
+    let nviol = violation_lines.len();
+    let wall = t0.elapsed().as_secs_f64();
+    let min_nt = chk.min_nontrivial(tier);
+    let mut gaps: Vec<String> = vec![];
+    for c in chk.required_classes(tier) {
+        if !total.classes.keys().any(|k| k.contains(&c)) {
+            gaps.push(c);
+        }
+    }
+    let ev = evidence_json(id, tier, seed, chk.level(), &chk.rule(), &total, wall, &chk.assumptions(), nviol);
+    let _ = std::fs::create_dir_all("/verif/evidence");
+    let evp = format!("/verif/evidence/{}.json", id);
+    std::fs::write(&evp, serde_json::to_string_pretty(&ev).unwrap()).expect("write evidence");
+    println!(
+        "{} {}: evaluations={} cases={} distinct_nontrivial={} classes={} known_hits={} violations={} wall={:.1}s",
+        id,
+        tier.name(),
+        total.evaluations,
+        total.cases,
+        total.nontrivial.len(),
+        total.classes.len(),
+        total.known_hits.values().sum::<u64>(),
+        nviol,
+        wall
+    );
+    if nviol > 0 {
+        for l in &violation_lines {
+            println!("{}", l);
+        }
+        return 1;
+    }
+    if !infra_fail.is_empty() {
+        for l in &infra_fail {
+            println!("INCONCLUSIVE: {}", l);
+        }
+        return 2;
+    }
+    if !gaps.is_empty() {
+        println!("GENERATOR-GAP: named classes never generated: {:?}", gaps);
+        return 2;
+    }
+    if total.nontrivial.len() < min_nt {
+        println!("VACUOUS: only {} distinct non-trivial cases (< {})", total.nontrivial.len(), min_nt);
+        return 2;
+    }
+    let inc = total.counters.get("inconclusive_cases").copied().unwrap_or(0);
+    if inc as u64 * 5 > total.cases.max(1) {
+        println!("INCONCLUSIVE: {} of {} cases could not be judged: {:?}", inc, total.cases, total.inconclusive.iter().take(3).collect::<Vec<_>>());
+        return 2;
+    }
+    let _ = json!(null);
+    0
+}
